@@ -20,9 +20,15 @@ def agree_statement (l : Lang) : Prop :=
 def agree_recognisers_statement (l : Lang) : Prop :=
   ∀ ts, accepts l ts = shellAccepts l ts
 
-/-- Soundness of the recogniser for every rule-variant vector (not proved yet). -/
-def sound_statement : Prop :=
-  ∀ c ts, parse c ts = true → Derives c .program .closed ts
+/-- Soundness of the recogniser, for every rule-variant vector and every token list: what the
+    model parser accepts is a program of the grammar with the same rule variants. -/
+theorem sound (c : Cfg) (ts : List Tok) (h : parse c ts = true) : Derives c .program .closed ts :=
+  parseWith_sound h
+
+/-- In particular: whatever the Go parser (model) accepts is derivable in the grammar with Go's
+    rule variants. -/
+theorem accepts_sound (l : Lang) (ts : List Tok) (h : accepts l ts = true) :
+    Derives (goCfg l) .program .closed ts := sound _ _ h
 
 /-- Completeness of the recogniser for every rule-variant vector (not proved yet). -/
 def complete_statement : Prop :=
